@@ -64,10 +64,11 @@ pub type Real = (u64, u64, bool);
 
 /// The hook table an external executor installs.
 pub trait Hooks: Sync {
-    /// Scheduling point + memory-model decision for one atomic operation. `real` performs the
-    /// operation on the real atomic. The hook may decide not to call it (spurious weak-CAS
-    /// failure) or to override the value a load returns (stale read). Returns (old value, ok).
-    fn atomic(&self, op: &OpDesc, real: &dyn Fn() -> Real) -> (u64, bool);
+    /// Scheduling point + memory-model decision for one atomic operation. `real(true)` performs
+    /// the operation on the real atomic; `real(false)` only peeks at the current value. The hook
+    /// may decide not to perform it (spurious weak-CAS failure) or to override the value a load
+    /// returns (stale read). Returns (old value, ok).
+    fn atomic(&self, op: &OpDesc, real: &dyn Fn(bool) -> Real) -> (u64, bool);
     /// Called before really locking. Returns once the lock is free at the scheduler level.
     fn mutex_lock(&self, addr: usize);
     /// try_lock: returns whether the scheduler lets us take it.
@@ -138,10 +139,10 @@ pub fn block_readable(fd: i32) {
 }
 
 #[inline]
-fn run(op: OpDesc, real: &dyn Fn() -> Real) -> (u64, bool) {
+fn run(op: OpDesc, real: &dyn Fn(bool) -> Real) -> (u64, bool) {
     match hooks() {
         None => {
-            let (old, _, ok) = real();
+            let (old, _, ok) = real(true);
             (old, ok)
         }
         Some(h) => h.atomic(&op, real),
@@ -159,8 +160,8 @@ fn fail_ord(o: O) -> O {
 pub mod atomic {
     //! Mirrors `std::sync::atomic`.
     use super::{fail_ord, run, Kind, OpDesc};
-    pub use std::sync::atomic::Ordering;
     use std::sync::atomic as sa;
+    pub use std::sync::atomic::Ordering;
 
     /// See `std::sync::atomic::spin_loop_hint`.
     pub fn spin_loop_hint() {
@@ -184,7 +185,7 @@ pub mod atomic {
             operand: 0,
             expected: 0,
         };
-        run(d, &|| {
+        run(d, &|_| {
             sa::fence(order);
             (0, 0, true)
         });
@@ -267,22 +268,42 @@ pub mod atomic {
                 }
                 pub fn load(&self, o: Ordering) -> $t {
                     let d = desc!(self, Kind::Load, $w, o, o, 0, 0);
-                    run(d, &|| {
-                        let v = self.0.load(o).w_to();
-                        (v, v, true)
+                    run(d, &|go| {
+                        if !go {
+                            let p = self.0.load(Ordering::Relaxed).w_to();
+                            (p, p, false)
+                        } else {
+                            let v = self.0.load(o).w_to();
+                            (v, v, true)
+                        }
                     })
-                    .0.w_from()
+                    .0
+                    .w_from()
                 }
                 pub fn store(&self, v: $t, o: Ordering) {
                     let d = desc!(self, Kind::Store, $w, o, o, v.w_to(), 0);
-                    run(d, &|| {
-                        self.0.store(v, o);
-                        (0, v.w_to(), true)
+                    run(d, &|go| {
+                        if !go {
+                            let p = self.0.load(Ordering::Relaxed).w_to();
+                            (p, p, false)
+                        } else {
+                            self.0.store(v, o);
+                            (0, v.w_to(), true)
+                        }
                     });
                 }
                 pub fn swap(&self, v: $t, o: Ordering) -> $t {
                     let d = desc!(self, Kind::Swap, $w, o, fail_ord(o), v.w_to(), 0);
-                    run(d, &|| (self.0.swap(v, o).w_to(), v.w_to(), true)).0.w_from()
+                    run(d, &|go| {
+                        if !go {
+                            let p = self.0.load(Ordering::Relaxed).w_to();
+                            (p, p, false)
+                        } else {
+                            (self.0.swap(v, o).w_to(), v.w_to(), true)
+                        }
+                    })
+                    .0
+                    .w_from()
                 }
                 pub fn compare_exchange(
                     &self,
@@ -292,9 +313,16 @@ pub mod atomic {
                     f: Ordering,
                 ) -> Result<$t, $t> {
                     let d = desc!(self, Kind::Cas, $w, s, f, new.w_to(), cur.w_to());
-                    let (old, ok) = run(d, &|| match self.0.compare_exchange(cur, new, s, f) {
-                        Ok(o) => (o.w_to(), new.w_to(), true),
-                        Err(o) => (o.w_to(), o.w_to(), false),
+                    let (old, ok) = run(d, &|go| {
+                        if !go {
+                            let p = self.0.load(Ordering::Relaxed).w_to();
+                            (p, p, false)
+                        } else {
+                            match self.0.compare_exchange(cur, new, s, f) {
+                                Ok(o) => (o.w_to(), new.w_to(), true),
+                                Err(o) => (o.w_to(), o.w_to(), false),
+                            }
+                        }
                     });
                     if ok {
                         Ok(old.w_from())
@@ -312,9 +340,16 @@ pub mod atomic {
                     let d = desc!(self, Kind::CasWeak, $w, s, f, new.w_to(), cur.w_to());
                     // The real operation is the strong one; spurious failures are injected by
                     // the hook (by not calling `real`).
-                    let (old, ok) = run(d, &|| match self.0.compare_exchange(cur, new, s, f) {
-                        Ok(o) => (o.w_to(), new.w_to(), true),
-                        Err(o) => (o.w_to(), o.w_to(), false),
+                    let (old, ok) = run(d, &|go| {
+                        if !go {
+                            let p = self.0.load(Ordering::Relaxed).w_to();
+                            (p, p, false)
+                        } else {
+                            match self.0.compare_exchange(cur, new, s, f) {
+                                Ok(o) => (o.w_to(), new.w_to(), true),
+                                Err(o) => (o.w_to(), o.w_to(), false),
+                            }
+                        }
                     });
                     if ok {
                         Ok(old.w_from())
@@ -352,7 +387,7 @@ pub mod atomic {
                 $(
                 pub fn $m(&self, v: $t, o: Ordering) -> $t {
                     let d = desc!(self, $kind, $w, o, fail_ord(o), v.w_to(), 0);
-                    run(d, &|| {
+                    run(d, &|go| if !go { let p = self.0.load(Ordering::Relaxed).w_to(); (p, p, false) } else {
                         let old = self.0.$m(v, o);
                         let f: fn($t, $t) -> $t = $new;
                         (old.w_to(), f(old, v).w_to(), true)
@@ -377,8 +412,16 @@ pub mod atomic {
                 (fetch_or, Kind::FetchOther, |a, b| a | b),
                 (fetch_xor, Kind::FetchOther, |a, b| a ^ b),
                 (fetch_nand, Kind::FetchOther, |a, b| !(a & b)),
-                (fetch_max, Kind::FetchOther, |a, b| if a > b { a } else { b }),
-                (fetch_min, Kind::FetchOther, |a, b| if a < b { a } else { b })
+                (fetch_max, Kind::FetchOther, |a, b| if a > b {
+                    a
+                } else {
+                    b
+                }),
+                (fetch_min, Kind::FetchOther, |a, b| if a < b {
+                    a
+                } else {
+                    b
+                })
             );
         };
     }
@@ -438,27 +481,38 @@ pub mod atomic {
         }
         pub fn load(&self, o: Ordering) -> *mut T {
             let d = desc!(self, Kind::Load, 8, o, o, 0, 0);
-            run(d, &|| {
-                let v = self.0.load(o) as usize as u64;
-                (v, v, true)
+            run(d, &|go| {
+                if !go {
+                    let p = self.0.load(Ordering::Relaxed) as usize as u64;
+                    (p, p, false)
+                } else {
+                    let v = self.0.load(o) as usize as u64;
+                    (v, v, true)
+                }
             })
             .0 as usize as *mut T
         }
         pub fn store(&self, p: *mut T, o: Ordering) {
             let d = desc!(self, Kind::Store, 8, o, o, p as usize as u64, 0);
-            run(d, &|| {
-                self.0.store(p, o);
-                (0, p as usize as u64, true)
+            run(d, &|go| {
+                if !go {
+                    let p = self.0.load(Ordering::Relaxed) as usize as u64;
+                    (p, p, false)
+                } else {
+                    self.0.store(p, o);
+                    (0, p as usize as u64, true)
+                }
             });
         }
         pub fn swap(&self, p: *mut T, o: Ordering) -> *mut T {
             let d = desc!(self, Kind::Swap, 8, o, fail_ord(o), p as usize as u64, 0);
-            run(d, &|| {
-                (
-                    self.0.swap(p, o) as usize as u64,
-                    p as usize as u64,
-                    true,
-                )
+            run(d, &|go| {
+                if !go {
+                    let p = self.0.load(Ordering::Relaxed) as usize as u64;
+                    (p, p, false)
+                } else {
+                    (self.0.swap(p, o) as usize as u64, p as usize as u64, true)
+                }
             })
             .0 as usize as *mut T
         }
@@ -478,9 +532,16 @@ pub mod atomic {
                 new as usize as u64,
                 cur as usize as u64
             );
-            let (old, ok) = run(d, &|| match self.0.compare_exchange(cur, new, s, f) {
-                Ok(o) => (o as usize as u64, new as usize as u64, true),
-                Err(o) => (o as usize as u64, o as usize as u64, false),
+            let (old, ok) = run(d, &|go| {
+                if !go {
+                    let p = self.0.load(Ordering::Relaxed) as usize as u64;
+                    (p, p, false)
+                } else {
+                    match self.0.compare_exchange(cur, new, s, f) {
+                        Ok(o) => (o as usize as u64, new as usize as u64, true),
+                        Err(o) => (o as usize as u64, o as usize as u64, false),
+                    }
+                }
             });
             if ok {
                 Ok(old as usize as *mut T)
@@ -504,9 +565,16 @@ pub mod atomic {
                 new as usize as u64,
                 cur as usize as u64
             );
-            let (old, ok) = run(d, &|| match self.0.compare_exchange(cur, new, s, f) {
-                Ok(o) => (o as usize as u64, new as usize as u64, true),
-                Err(o) => (o as usize as u64, o as usize as u64, false),
+            let (old, ok) = run(d, &|go| {
+                if !go {
+                    let p = self.0.load(Ordering::Relaxed) as usize as u64;
+                    (p, p, false)
+                } else {
+                    match self.0.compare_exchange(cur, new, s, f) {
+                        Ok(o) => (o as usize as u64, new as usize as u64, true),
+                        Err(o) => (o as usize as u64, o as usize as u64, false),
+                    }
+                }
             });
             if ok {
                 Ok(old as usize as *mut T)
